@@ -160,6 +160,43 @@ def run(ctx, replay=None):
                 done += 3
             except Exception as e:
                 ctx.count('inplace_rejected', type(e).__name__)
+            # 5c explicit lag edges assigned on an evaluated instance = the variogram of the same (reordered, shifted) data built with them
+            if dim >= 1 and case['dist_func'] in ('euclidean', 'cityblock', 'chebyshev') and not absml:
+                try:
+                    Vi = results(case)[3]
+                    _ = Vi.experimental, Vi.bin_count
+                    dmax_ = float(np.max(np.asarray(Vi.distance, float)))
+                    new_edges = np.array([dmax_ * f_ for f_ in (0.21, 0.43, 0.66, 0.93)])
+                    how = rng.choice(['bins', 'bin_func', 'set_bin_func'])
+                    if how == 'bins':
+                        Vi.bins = new_edges.copy()
+                    elif how == 'bin_func':
+                        Vi.bin_func = new_edges.copy()
+                    else:
+                        Vi.set_bin_func(new_edges.copy())
+                    perm = list(range(npts))
+                    rng.shuffle(perm)
+                    ref = results(dict(case, coords=(c[perm] + shift).tolist(), values=(v[perm] + 8.0).tolist(), bins=new_edges.tolist(), maxlag=None, coords_dtype=None))[:3]
+                    same(ctx, case, 'assigning explicit lag edges in place (%s) vs the reordered, translated, value-shifted data built with these edges' % how,
+                         (np.asarray(Vi.bins, float), np.asarray(Vi.bin_count), np.asarray(Vi.experimental, float)), ref, exact=False)
+                    done += 1
+                except Exception as e:
+                    ctx.count('edges_inplace_rejected', type(e).__name__)
+            # 5d a variogram that reached its metric through set_dist_function equals one constructed with it (on reordered, translated data)
+            if not absml and case.get('bins') is None and order_free:
+                try:
+                    start = rng.choice([m_ for m_ in ('euclidean', 'cityblock', 'chebyshev') if m_ != case['dist_func']])
+                    Vm = results(dict(case, dist_func=start))[3]
+                    _ = Vm.experimental
+                    Vm.set_dist_function(case['dist_func'])
+                    perm = list(range(npts))
+                    rng.shuffle(perm)
+                    ref = results(dict(case, coords=(c[perm] + shift).tolist(), values=v[perm].tolist(), coords_dtype=None))[:3]
+                    same(ctx, case, 'reaching the metric through set_dist_function (from %s) vs constructing the reordered, translated data with it' % start,
+                         (np.asarray(Vm.bins, float), np.asarray(Vm.bin_count), np.asarray(Vm.experimental, float)), ref, exact=False, sig=zsig)
+                    done += 1
+                except Exception as e:
+                    ctx.count('metric_inplace_rejected', type(e).__name__)
             # 6 coordinate scale s (relative or unset maxlag)
             if not absml and case.get('bins') is None:
                 for s in (2.0, 0.25):
